@@ -598,14 +598,18 @@ func (pool *hostConnPool) connect() (err error) {
 
 	// add the Conn to the pool
 	pool.mu.Lock()
-	defer pool.mu.Unlock()
 
 	if pool.closed {
+		// do not hold pool.mu while closing the connection: if closing the
+		// underlying connection fails, Conn.Close reports that to pool.HandleError,
+		// which takes pool.mu
+		pool.mu.Unlock()
 		conn.Close()
 		return nil
 	}
 
 	pool.conns = append(pool.conns, conn)
+	pool.mu.Unlock()
 
 	return nil
 }
